@@ -451,6 +451,16 @@ func (r *Run) RunScenarios(scs []Scenario) {
 		r.replay(scs)
 		return
 	}
+	if only := os.Getenv("VERIF_ONLY"); only != "" { // development aid: restrict to matching scenarios, one line each
+		var f []Scenario
+		for _, sc := range scs {
+			if strings.Contains(sc.Name, only) {
+				f = append(f, sc)
+			}
+		}
+		scs = f
+		r.Quiet = false
+	}
 	tot := Totals{Exhaustive: true}
 	type res struct {
 		last      explore.Stats
